@@ -263,19 +263,56 @@ def real_series(n, seed, start=100.0, vol=0.004):
     return c
 
 
+def regime_boundary(n, seed):
+    """row at which a 'regime' series switches between its quiet and its volatile part; the second candle array of a
+    two-array indicator (seed + 1000) switches at the same row"""
+    return n // 2 - 20 + 13 * (seed % 1000 % 4)
+
+
+def regime_series(n, seed, reverse=False):
+    """real-valued series with a regime change: a very quiet stretch (moves of ~1e-5 around 100, not constant) and a
+    volatile one (moves of several units), magnitude ratio ~1e5-1e6; quiet first unless `reverse`"""
+    rng = random.Random("regime-%d-%d-%s" % (n, seed, reverse))
+    b = regime_boundary(n, seed)
+    c = np.zeros((n, 6))
+    p = 100.0
+    for i in range(n):
+        quiet = (i < b) != reverse
+        amp = 1e-5 if quiet else rng.choice([1.0, 2.0, 3.0])
+        o = p
+        cl = max(5.0, o + rng.gauss(0, 1) * amp)
+        h = max(o, cl) + abs(rng.gauss(0, 0.5)) * amp
+        l = min(o, cl) - abs(rng.gauss(0, 0.5)) * amp
+        c[i] = (T0 + i * MIN, o, cl, h, l, rng.uniform(1, 100) * (1.0 if quiet else 20.0))
+        p = cl
+    return c
+
+
+def regime_cuts(n, seed, full=True):
+    b = regime_boundary(n, seed)
+    cuts = [b - 40, b - 1, b, b + 1, b + 3, b + 10, b + 30, n] if full else [b - 40, b, b + 1, b + 10, n]
+    return sorted({k for k in cuts if 1 <= k <= n})
+
+
 def build_series(spec):
     """spec = (kind, n, seed[, scale[, "jitter"]]).  The jittered twin of a series multiplies every price and volume by
-    1 + 1e-6 * u (u uniform in [-1, 1], reproducible): same shape, but no exact ties between candles any more."""
+    1 + 1e-9 * u (u uniform in [-1, 1], reproducible): same shape (far below the moves of even a very quiet market, far
+    above the 1e-16 of float rounding), but no exact ties between candles any more."""
     kind, n, seed = spec[0], spec[1], spec[2]
     scale = spec[3] if len(spec) > 3 else 1.0
-    c = real_series(n, seed) if kind == "real" else make_series(kind, n, seed)
+    if kind == "real":
+        c = real_series(n, seed)
+    elif kind in ("regime", "regime_r"):
+        c = regime_series(n, seed, reverse=(kind == "regime_r"))
+    else:
+        c = make_series(kind, n, seed)
     if scale != 1.0:
         c = c.copy()
         c[:, 1:6] *= scale          # powers of two keep the lattice exact
     if len(spec) > 4 and spec[4] == "jitter":
         rng = np.random.default_rng(zlib.crc32(("%s-%d-%d" % (kind, n, seed)).encode()))
         c = c.copy()
-        c[:, 1:6] *= 1.0 + 1e-6 * rng.uniform(-1.0, 1.0, size=(n, 5))
+        c[:, 1:6] *= 1.0 + 1e-9 * rng.uniform(-1.0, 1.0, size=(n, 5))
         c[:, 3] = np.maximum(c[:, 3], np.maximum(c[:, 1], c[:, 2]))
         c[:, 4] = np.minimum(c[:, 4], np.minimum(c[:, 1], c[:, 2]))
     return c
